@@ -466,6 +466,11 @@ class PSBaseParser:
             self._parse1 = self._parse_string_2
             return i + 1
 
+        elif c != b"\n":
+            # PDF 32000-1 7.3.4.2: if the character following the backslash is
+            # not one of those in Table 3, only the backslash is ignored.
+            self._curtoken += c
+
         # default action
         self._parse1 = self._parse_string
         return i + 1
